@@ -60,6 +60,16 @@ def oracle (name : String) (ts : List String) : Option Bool :=
       let (w, ts) ← pB ts; let (w', _) ← pB ts
       let keys := fun (x : MB) => (x.cornersOf ⟨3, nm⟩).map (List.map (Option.map fun p => weldKey pw (unbits p)))
       pure (decide (keys w' = keys w) && (keys w).isSome)
+  | "repeat_spec" => do      -- theorem repeatMesh_corners, for every key of the input and of the output
+      let (k, ts) ← pNat ts
+      let pT : Parser (trs.TRS Float) := fun ts => do
+        let (p, ts) ← pV3 ts; let (qv, ts) ← pV3 ts; let (qw, ts) ← pFloat ts; let (sc, ts) ← pV3 ts
+        pure (trs.New p ⟨qv, qw⟩ sc, ts)
+      let (tl, ts) ← pMany pT k ts
+      let (m, ts) ← pB ts; let (o, _) ← pB ts
+      let phis : List (PB → PB) := tl.map fun t => fun p => pBits (liftV3 (fun v => t.Transform v) (unbits p))
+      pure ((m.keys ++ o.keys).all fun key =>
+        decide (cornersOrZero zeroB o key = phis.flatMap (copyCorners zeroB posKey m key)))
   | "same_mesh" => do
       let (m, ts) ← pB ts; let (o, _) ← pB ts
       pure (decide (m = o))
@@ -109,7 +119,7 @@ def crossOf (pos : Array (V3 Float)) (t : Nat × Nat × Nat) : Option (V3 Float)
   | some a, some b, some c => some ((b.Sub a).Cross (c.Sub a))
   | _, _, _ => none
 
-def sameOrBothNaN (a b tol : Float) : Bool := (a != a && b != b) || (a - b).abs ≤ tol
+def sameOrBothNaN (a b tol : Float) : Bool := a == b || (a != a && b != b) || (a - b).abs ≤ tol
 def sameV (a b : V3 Float) (tol : Float) : Bool := sameOrBothNaN a.x b.x tol && sameOrBothNaN a.y b.y tol && sameOrBothNaN a.z b.z tol
 
 /-- smooth normal of `v`: normalised sum over incident corners (reverse visiting order); `none` = skip the vertex
